@@ -339,7 +339,7 @@ func runHist(w *world, in histIn) (out histOut) {
 				req.SecretKey = secretFor(st.Secret, right, other)
 			}
 			// specification: entitlement to the named mapping at arrival
-			if authed && named != "" && mstate[named] == "active" {
+			if authed && named != "" && (mstate[named] == "active" || mstate[named] == "soon60s") {
 				isL, isT := listenOf[named] == st.Who, targetOf[named] == st.Who
 				o.entNamed = (isL && st.Secret == "none") || ((isL || isT) && st.Secret == "right")
 			}
